@@ -41,6 +41,9 @@ pub enum Parsed {
     Bad,
     /// a spelling or magnitude on which the statements are silent: the model abstains
     Odd,
+    /// canonical spelling, but more digits than 96 bits / 28 decimals hold: it *is* a decimal
+    /// (so it can be installed as a rate), the model just does not compute with it
+    Long,
 }
 
 pub fn two_pow_96() -> U {
@@ -106,12 +109,34 @@ pub fn parse(s: &str) -> Parsed {
     let d = Dec { neg, mant, scale };
     let n = d.normalized();
     if n.scale > 28 || n.mant >= two_pow_96() {
-        return Parsed::Odd;
+        return Parsed::Long;
     }
     if d.scale > 28 || d.mant >= two_pow_96() {
         return Parsed::Ok(n);
     }
     Parsed::Ok(d)
+}
+
+/// Value of a canonical spelling with more than 28 decimals as a 28-decimal arithmetic sees it:
+/// the first 28 decimals, plus one unit in the last place when the 29th digit is 5 or more
+/// (measured on rust_decimal 1.29: "...00005" -> "...0001", "...00001" -> "...0000").
+pub fn parse_rounded28(s: &str) -> Option<Dec> {
+    let body = s.strip_prefix('-').unwrap_or(s);
+    let neg = s.starts_with('-');
+    let mut it = body.split('.');
+    let ip = it.next()?;
+    let fp = it.next().unwrap_or("");
+    if it.next().is_some() || ip.is_empty() || !ip.bytes().all(|b| b.is_ascii_digit()) || !fp.bytes().all(|b| b.is_ascii_digit()) {
+        return None;
+    }
+    let (keep, rest) = if fp.len() > 28 { fp.split_at(28) } else { (fp, "") };
+    let m = format!("{}{}", ip, keep);
+    let m = m.trim_start_matches('0');
+    let mut mant = if m.is_empty() { U::zero() } else { U::from_str(m).ok()? };
+    if rest.bytes().next().map(|b| b >= b'5').unwrap_or(false) {
+        mant = mant + u(1);
+    }
+    Some(Dec { neg, mant, scale: keep.len() as u32 })
 }
 
 impl Dec {
